@@ -861,13 +861,14 @@ func limitMemory() { debug.SetMemoryLimit(768 << 20) }
 // take the same decision.
 var allocTainted bool
 
-// sentinel: tiny inputs declaring 64 KB .. 64 MB in every header form, bare and
-// nested, against every target, under the allocation oracle.
+// sentinel: tiny inputs declaring 1 MB and 64 MB (minimal and 8-byte length
+// form, bare and nested) against every target, under the allocation oracle.
 func (r *runner) sentinel() {
 	for _, list := range []bool{false, true} {
-		for _, n := range []uint64{65535, 1 << 20, 1 << 26} {
-			for _, h := range headerForms(list, n) {
-				for _, in := range [][]byte{h, append(append([]byte{}, h...), 0x01), wrap(h), wrap(wrap(h)), wrap(append([]byte{0x01}, h...))} {
+		for _, n := range []uint64{1 << 20, 1 << 26} {
+			forms := headerForms(list, n)
+			for _, h := range [][]byte{forms[0], forms[len(forms)-1]} { // minimal and 8-byte length
+				for _, in := range [][]byte{h, wrap(h), wrap(append([]byte{0x01}, h...))} {
 					for _, t := range targets {
 						in, t := in, t
 						r.evals++
@@ -919,6 +920,47 @@ func run(c *fw.Ctx) {
 		t0 = t1
 	}
 
+	// (i) all byte strings of length 0..2, every type, with the over-read oracle on every case
+	buf := make([]byte, 0, 4)
+	nstr := int64(0)
+	for n := 0; n <= 2; n++ {
+		total := 1 << (8 * uint(n))
+		for x := 0; x < total; x++ {
+			if !r.mine() {
+				continue
+			}
+			buf = buf[:n]
+			for i := 0; i < n; i++ {
+				buf[i] = byte(x >> (8 * uint(n-1-i)))
+			}
+			r.input(buf, targets, true, false)
+			nstr++
+		}
+		if r.expired() {
+			c.Cap("time budget during the strings of length <= 2")
+			return
+		}
+	}
+	c.Sample(map[string]string{"part": "decode", "in": "c2c105", "types": "all " + strconv.Itoa(len(targets))})
+	phase("len0to2")
+
+	// (ii-b) field substitutions in struct encodings
+	nf := int64(0)
+	forEachFieldSubst(c.Thorough(), func(t *target, in []byte) bool {
+		if !r.mine() {
+			return true
+		}
+		r.input(in, []*target{t, targetByName["interface{}"], targetByName["RawValue"]}, true, false)
+		nf++
+		return !r.expired()
+	})
+	if r.capped {
+		c.Cap("time budget during field substitutions")
+		return
+	}
+	c.Count("field_substitution_inputs", nf)
+	phase("fields")
+
 	// (iii) value round trips
 	nvals := int64(0)
 	for _, g := range valueGroups(c.Thorough()) {
@@ -947,31 +989,7 @@ func run(c *fw.Ctx) {
 	c.Sample(kase{Part: "value", Group: "eth_tx.Transaction", Idx: 4711, Tho: c.Thorough()})
 	phase("values")
 
-	// (i) all byte strings of length 0..2, every type, with the over-read oracle on every case
-	buf := make([]byte, 0, 4)
-	nstr := int64(0)
-	for n := 0; n <= 2; n++ {
-		total := 1 << (8 * uint(n))
-		for x := 0; x < total; x++ {
-			if !r.mine() {
-				continue
-			}
-			buf = buf[:n]
-			for i := 0; i < n; i++ {
-				buf[i] = byte(x >> (8 * uint(n-1-i)))
-			}
-			r.input(buf, targets, true, false)
-			nstr++
-		}
-		if r.expired() {
-			c.Cap("time budget during the strings of length <= 2")
-			return
-		}
-	}
-	c.Sample(map[string]string{"part": "decode", "in": "c2c105", "types": "all " + strconv.Itoa(len(targets))})
-	phase("len0to2")
-
-	// (ii) grammar family and field substitutions
+	// (ii) header grammar
 	ng := int64(0)
 	forEachGrammar(c.Thorough(), func(in []byte, huge bool, declared uint64) bool {
 		if !r.mine() {
@@ -992,22 +1010,6 @@ func run(c *fw.Ctx) {
 	c.Count("grammar_inputs", ng)
 	c.Sample(map[string]string{"part": "decode+alloc", "in": "c9 bf ffffffffffffffff", "types": "all"})
 	phase("grammar")
-	nf := int64(0)
-	forEachFieldSubst(c.Thorough(), func(t *target, in []byte) bool {
-		if !r.mine() {
-			return true
-		}
-		r.input(in, []*target{t, targetByName["interface{}"], targetByName["RawValue"]}, true, false)
-		nf++
-		return !r.expired()
-	})
-	if r.capped {
-		c.Cap("time budget during field substitutions")
-		return
-	}
-	c.Count("field_substitution_inputs", nf)
-	phase("fields")
-
 	// (i) continued: byte strings of length 3.  thorough: all of them.  quick: those whose
 	// first byte starts a header (>= 0x80) or is one of the single-byte representatives 0x00, 0x7f
 	// (a first byte < 0x80 makes the rest trailing data, which lengths 1..2 already cover).
@@ -1085,9 +1087,11 @@ func replay(c *fw.Ctx, raw json.RawMessage) {
 func main() {
 	fw.Main(fw.Check{
 		ID: "C08", Level: "exploration",
-		Rule: "cases = (byte string, target type) pairs: every byte string of length <= 3, the header grammar (kind x header form x declared size x " +
-			"payload length x filler x nesting wrapper) and single/double field substitutions in struct encodings, each against every target type, " +
-			"plus encode->decode round trips over per-type value alphabets; every pair is enumerated once (distinct by construction). " +
+		Rule: "cases = (byte string, target type) pairs, each enumerated once (distinct by construction): every byte string of length <= 2, every length-3 string " +
+			"(quick: first byte >= 0x80 or in {0x00,0x7f}; thorough: all 2^24, plus all length-4 strings 0xC3****** against the list-kind targets), the header grammar " +
+			"(kind x every header form x 14 declared sizes up to 2^64-1 x payload lengths {n,n-1,n+1,0,1,2} x fillers x 8 nesting wrappers) and all single and double " +
+			"field substitutions (45 canonical/non-canonical field encodings) in the struct encodings of account.Account, eth_tx.Transaction and the tagged test structs, " +
+			"each against the target types, plus encode->decode round trips over per-type value alphabets. " +
 			"Non-trivial = the input is well-formed canonical RLP (so the outcome depends on the target type) or the decoder accepted it, or a value round trip.",
 		Assumptions: []string{
 			"verif/h/refrlp (strict reference decoder/encoder written from the property statement) is correct",
@@ -1099,7 +1103,7 @@ func main() {
 			if t == "thorough" {
 				return 17 * time.Minute
 			}
-			return 60 * time.Second
+			return 45 * time.Second
 		},
 	})
 }
